@@ -635,10 +635,12 @@ class GMMMachine(BaseEstimator):
             )
             gaussians_group = hdf5["gaussians"]
             self.means = gaussians_group["means"][...]
-            self.variances = gaussians_group["variances"][...]
+            # thresholds first: the stored variances must not be clamped by the
+            # thresholds the constructor started with
             self.variance_thresholds = gaussians_group["variance_thresholds"][
                 ...
             ]
+            self.variances = gaussians_group["variances"][...]
         else:  # Legacy file version
             logger.info("Loading a legacy HDF5 machine file.")
             n_gaussians = hdf5["m_n_gaussians"][()][0]
@@ -655,10 +657,10 @@ class GMMMachine(BaseEstimator):
             weights = np.reshape(hdf5["m_weights"], (n_gaussians,))
             self = cls(n_gaussians=n_gaussians, ubm=ubm, weights=weights)
             self.means = np.array(g_means).reshape(n_gaussians, -1)
-            self.variances = np.array(g_variances).reshape(n_gaussians, -1)
             self.variance_thresholds = np.array(g_variance_thresholds).reshape(
                 n_gaussians, -1
             )
+            self.variances = np.array(g_variances).reshape(n_gaussians, -1)
         return self
 
     def load(self, hdf5):
